@@ -96,6 +96,7 @@ pub struct Ctx {
     pub digest: u64, // rolling digest of canonical traces (C18)
     pub case_digests: Vec<(u64, u64)>,
     pub want_case_digests: bool,
+    pub attribute: Option<&'static str>,
 }
 
 impl Ctx {
@@ -119,6 +120,7 @@ impl Ctx {
             digest: 0,
             case_digests: Vec::new(),
             want_case_digests: want,
+            attribute: None,
         }
     }
 
@@ -143,6 +145,9 @@ impl Ctx {
             }
         }
         self.cur_case = desc();
+        if self.want_case_digests {
+            self.case_digests.push((self.case_idx, crate::tok::trace_digest()));
+        }
         if self.args.breadcrumbs || self.args.verbose {
             eprintln!("CASE {} {}", self.case_idx, self.cur_case);
         }
@@ -154,6 +159,16 @@ impl Ctx {
     }
 
     pub fn violation(&mut self, prop: &'static str, sig: String, detail: String) {
+        // follow-up operations after an injected fault: a deviation refutes the fault property
+        let (prop, sig) = match self.attribute {
+            Some(p) if matches!(prop, "C01" | "C02" | "C03" | "C07" | "C09" | "C11" | "C20" | "C17") => {
+                if matches!(prop, "C20" | "C17") {
+                    return;
+                }
+                (p, format!("via:{}:{}", prop, sig))
+            }
+            _ => (prop, sig),
+        };
         let key = (prop, sig.clone());
         if let Some(&i) = self.viol_idx.get(&key) {
             self.viol[i].count += 1;
@@ -186,7 +201,7 @@ impl Ctx {
         let _ = write!(o, ",\"cases_enumerated\":{}", self.case_idx);
         let _ = write!(o, ",\"distinct\":{}", self.distinct.len());
         let _ = write!(o, ",\"layouts\":{}", self.layouts.len());
-        let _ = write!(o, ",\"digest\":\"{:016x}\"", self.digest);
+        let _ = write!(o, ",\"digest\":\"{:016x}\"", self.digest ^ crate::tok::trace_digest());
         if self.args.flag("emit-distinct") {
             o.push_str(",\"distinct_keys\":[");
             for (i, k) in self.distinct.iter().enumerate() {
